@@ -533,8 +533,14 @@ def check_dict_fresh(ck, prog, rule="C03-DICTFRESH"):
                 posb.setdefault(b.id, []).append(i)
         stores = [(b, i, nd) for b, i, e in f.iter_elems() for (l, r, op, nd) in ex.writes(e)
                   if ex.show(l) == "dict->full" and r is not None and "dict->pos" in ex.show(r)]
-        if not stores or not posb:
-            raise AnalysisBroken("%s: no `dict->full = ... dict->pos ...` / no modification of dict->pos" % fn)
+        if not posb:
+            raise AnalysisBroken("%s: no modification of dict->pos" % fn)
+        if not stores:
+            n += 1
+            ck.ob(rule, fn, False, common.where(f),
+                  "%s() advances dict->pos but never recomputes dict->full: the bytes it writes are not counted as history, so a "
+                  "later match that refers to them is rejected as corrupt" % fn, key="DICTFRESH:" + fn)
+            continue
         bad = None
         for (b, i, nd) in stores:
             if any(j > i for j in posb.get(b.id, ())):
